@@ -1,5 +1,6 @@
 """C09 - a nil load result means the filter is in force; failed loads leave none behind."""
 import json
+import os
 
 import loaderfam as lf
 import vlib
@@ -122,6 +123,8 @@ def check(ctx, replay=None):
     if replay:
         rep = json.load(open(replay))
         d = lf.child_bin(ctx)
+        if rep["script"].get("jail"):
+            rep["script"]["jail"] = os.path.dirname(ctx.path("jail", "x"))
         obs, err = lf.run_child(d + "/loadchild", rep["script"], rep["priv"])
         if obs is None:
             raise vlib.Machinery("child failed: " + err)
@@ -167,8 +170,13 @@ def check(ctx, replay=None):
     picked, nclasses = lf.sample(hists, n, ctx.seed, features)
     d = lf.child_bin(ctx)
 
-    def one(h):
+    def one(ih):
+        i, h = ih
         script = lf.to_script(h, 3)
+        # every third privileged history runs in a process that has changed its root to an empty directory first (no /proc, no files):
+        # what the loader does and reports depends on the kernel's answers only (Loader.tla has no file system)
+        if h["priv"] and i % 3 == 1:
+            script["jail"] = os.path.dirname(ctx.path("jails", "j%d" % i, "x"))
         obs, err = lf.run_child(d + "/loadchild", script, h["priv"])
         if obs is None and (err.startswith("rc=") or err == "timeout") and any(st["op"] == "supported" for st in script["steps"]):
             # find out where it died: replay the prefix without Supported()
@@ -182,7 +190,9 @@ def check(ctx, replay=None):
     failed_children = 0
     ndrift = 0
     seen_tags = {}
-    for h, script, obs, err in lf.run_many(one, picked):
+    njail = 0
+    for h, script, obs, err in lf.run_many(one, list(enumerate(picked))):
+        njail += 1 if script.get("jail") else 0
         if obs is None or (obs != "died-at-supported" and len(obs) != len(h["hist"])):
             failed_children += 1
             ctx.skip("child failed: %s" % (err or "short output"))
@@ -210,6 +220,7 @@ def check(ctx, replay=None):
     if failed_children > len(picked) // 4:
         raise vlib.Machinery("%d of %d children failed" % (failed_children, len(picked)))
     ctx.cov["histories_generated"] = len(hists)
+    ctx.cov["histories_replayed_without_a_file_system"] = njail
     ctx.cov["replayed_by_tag"] = seen_tags
     for need in ("refused-tsync", "eacces", "enosys", "badflags", "oversize", "invalid", "ok-tsync", "ok-plain", "supported", "hook-spawn", "prctl-denied", "same-policy-again", "ok-allowall"):
         if not seen_tags.get(need):
